@@ -51,3 +51,29 @@ CHECKS['C12'] = dict(
                  'out-of-bounds accesses are detected at page granularity past the end (or before the start) of struct reduce_data; accesses that stay inside the struct are in-bounds by definition',
                  'complete enumeration covers inputs over {a,b} up to enum2 bytes and {a,b,c} up to enum3 bytes with every single-position truncation / alteration / extension; larger inputs are sampled'],
 )
+
+_LC_REAL = ['mir.c (module creation by scan / binary read, load, link, inlining, simplification, code holders, output, write)', 'mir-interp.c', 'mir-gen.c + mir-gen-x86_64.c + mir-x86_64.c (thunks, wrappers, eager and lazy generation at -O0..-O3)', 'c2mir/c2mir.c (C front end on generated C)', 'mir-varr.h / mir-htab.h / mir-bitmap.h as used by the library', 'the CPU executing generated code', 'kernel mmap/mprotect under the simulated code allocator']
+_LC_STUB = ['general allocator (simalloc arena: ledger, red zones, poison, moving realloc, junk fill)', 'code allocator (simcode: placement policy near/far/4GB-spread, real W^X windows, ledger)', 'libc allocation/mapping/clock calls made from library objects (link-time wrapped: libwrap)', 'externals called by MIR code (logged, may re-enter MIR)', 'import resolver call-back', 'error call-back (longjmp = crash point)', 'byte store for binary round trips', 'template program family with an independent C++ model (prog/dsl.hpp)']
+
+CHECKS['C17'] = dict(
+    harness='lcsim', variant='plain', level='exploration', default_seed=1,
+    tiers={
+        'quick': dict(count=12000, mode='C17', budget_s=400),
+        'thorough': dict(count=400000, mode='C17', budget_s=2400),
+    },
+    rule=('run = one seeded error-free API history on a context created with MIR_init2(simalloc, simcode): modules of a generated '
+          'template program created by MIR_scan_string / c2mir_compile of generated C / MIR_read of a stream written by a helper '
+          'context, loaded and linked in dependency-closed steps with a per-step interface (none, interp, eager gen, lazy gen), '
+          'explicit MIR_gen, calls through public addresses and MIR_interp (results and external-call log compared with the model), '
+          'MIR_output / MIR_write, optimisation-level changes, then gen_finish / c2mir_finish / finish.  Every allocator, code-allocator and '
+          'wrapped-libc call is checked against the ledger; allocator behaviour (realloc move policy, junk, gap) and code placement are '
+          'seeded per run.  non-trivial = at least 3 ops executed AND (realloc moved a live block OR a code write window was opened); '
+          'distinct = distinct hash of (knobs, program, ops) among those.'),
+    probes=['realloc_moved_live_block', 'module_via_c2mir', 'module_via_binary_read', 'gen_lazy_on_first_call', 'gen_repeated',
+            'link_with_3_pending_modules', 'ext_reentered_mir', 'interp_after_generation', 'link_iface_none', 'contexts_finished'],
+    components_real=_LC_REAL, components_stubbed=_LC_STUB,
+    assumptions=['histories are error-free by construction (allocation failure is never injected: the statement excludes it)',
+                 'programs come from one template family (prog/dsl.hpp); a crash of the generator that also occurs for the plain history scan/load/link(eager) of the same program is a program-level optimizer defect and is counted as a side finding, not a verdict',
+                 'use-after-free is detected by poison audit (writes) and by crashes/wrong results (reads); the plain, not the ASan, build is used',
+                 'the lazy basic-block interface is not part of C17 histories (its known conflict with MIR_interp is reported under C03)'],
+)
